@@ -76,6 +76,8 @@ ProbeClauses(e) ==
     LET F == {Core(c) : c \in SeqToSet(e.disk)} M == SeqToSet(e.mfd) IN
     (IF e.ok # P!Valid(F, M, e.cls) THEN {"probe_opens_iff_valid"} ELSE {})
     \cup (IF P!OpenChecks(F, M, e.cls) # P!Valid(F, M, e.cls) THEN {"probe_model_checks_eq_valid"} ELSE {})
+    \* the uncorrupted record, exactly as the building history left it, is a valid file set
+    \cup (IF e.intact /\ ~P!Valid(F, M, e.cls) THEN {"built_record_is_valid"} ELSE {})
 
 (* --- crash probes (C11): the directory as left by a crash/torn write         *)
 (*   e.sub_ok, e.sub_vw : opening only the previously committed containers     *)
